@@ -1,6 +1,7 @@
 # Sizing and claim for C14 (see props/__init__.py)
 SPEC = {
-        "quick": {"rc_cases": 20000, "rc_procs": 8, "enum": True},
+    "variants": {"": [], "uchar": ["-funsigned-char"]},   # the second build variant uses an unsigned plain char (-funsigned-char: the ARM / AArch64 / PowerPC default); in the quick tier it runs a reduced number of generated cases and no enumerators
+        "quick": {"rc_cases": 20000, "rc_procs": 8, "enum": True, "variant_cfg": {"uchar": {"rc_cases": 10000, "rc_procs": 3, "enum": False}}},
         "thorough": {"rc_cases": 60000, "rc_procs": 8, "enum": True, "fuzz_secs": 20, "fuzz_workers": 4},
         "claim": {
             "category": "exploration",
